@@ -284,10 +284,16 @@ class Calls:
         for k, e in c.lets.items():
             extra[k] = S.spec_eval(e, env_pre, extra)
             env_pre.extra[k] = extra[k]
+        ghost_req = []
         for i, r in enumerate(c.requires):
             lab, e = r if isinstance(r, tuple) else ('req%d' % i, r)
+            if lab.startswith('ghost'):
+                # ranges of the callee's ghost (universally quantified) variables: not a caller obligation
+                ghost_req.append(S.spec_eval(e, env_pre, extra))
+                continue
             ex.oblige('pre', '%s.%s' % (c.name.split('::')[-1], lab), S.spec_eval(e, env_pre, extra), n,
                       props=None)
+        ghosts = [v for v in extra.values() if z3.is_expr(v) and z3.is_const(v) and str(v).startswith('ghost.')]
         if c.trusted:
             ex.assumed.add('trusted contract: ' + c.key)
         if c.throws is not None:
@@ -341,7 +347,11 @@ class Calls:
             ex2['result'] = env_post.wrap(ex.read(result.path))
         S.MODE[0] = 'assume'
         for lab, e in c.ensures:
-            ex.assume(S.spec_eval(e, env_post, ex2))
+            fe = S.spec_eval(e, env_post, ex2)
+            if ghosts and any(str(g) in str(fe) for g in ghosts):
+                # proved for arbitrary ghost values in their range: holds for all of them
+                fe = z3.ForAll(ghosts, z3.Implies(z3.And(*ghost_req) if ghost_req else z3.BoolVal(True), fe))
+            ex.assume(fe)
         if result is not None and not isinstance(result, RefVal):
             ex.ghost_trigger('ret:' + re.sub(r'<.*>', '', c.name).split('::')[-1], None, [result])
         return result
